@@ -4,10 +4,10 @@ CONSTANTS
   Surrounds = {{}, {3, 6, 9, 12}}
   DocHi = {TRUE}
   DocSurs = {{}}
-  FullDocs = FALSE
+  DocOther = {"all"}
   E2EAlgs = {"rc4_40", "rc4_40_v2", "rc4_40_r3", "rc4_128_r3", "rc4_128", "aes_128", "aes_256", "aes_256_r6"}
   ApiAlgs = {"rc4_40", "rc4_40_v2", "rc4_40_r3", "rc4_128_r3", "rc4_128", "aes_128", "aes_256", "aes_256_r6"}
-  ApiRels = {{}, {4}, {5}, {4, 5}, {10}, {11}, {10, 11}}
+  ApiRels = {{10, 11}, {4, 10, 11}, {5, 10, 11}, {4, 5, 10, 11}, {4, 5}, {4, 5, 10}, {4, 5, 11}}
   ApiSurs = {{}}
   Emit = TRUE
 INVARIANTS Mono Layout SurroundIrrelevant EmitCase EmitDocs
